@@ -92,10 +92,10 @@ DIRS = ["a", "a.dir", "sub", "é", "a b", "B", "a!", "z"]
 XOIDS = OIDS + [hashlib.md5(b"x%d" % i).hexdigest() for i in range(12)]  # noqa: S324
 
 
-def pkeys():
-    """Keys as [dir parts..., leaf]; directory parts come from a tiny pool so directories are shared."""
-    key = st.tuples(st.lists(st.sampled_from(DIRS), max_size=3), pnames()).map(lambda t: [*t[0], t[1]])
-    return st.lists(key, min_size=1, max_size=10)
+PN = pnames()
+# keys as [dir parts..., leaf]; directory parts come from a tiny pool so directories are shared
+PKEYS = st.lists(st.tuples(st.lists(st.sampled_from(DIRS), max_size=3), PN).map(lambda t: [*t[0], t[1]]),
+                 min_size=1, max_size=10)
 
 
 def entries_of(case):
@@ -119,7 +119,7 @@ def pure_cases(draw):
     return {
         "kind": "pure",
         "algo": draw(st.sampled_from(HNAMES)),
-        "keys": draw(pkeys()),
+        "keys": draw(PKEYS),
         "oids": draw(st.lists(st.sampled_from(XOIDS), min_size=1, max_size=6)),
         "metas": draw(st.lists(st.sampled_from(METAS), min_size=1, max_size=4)),
         "metas2": draw(st.lists(st.sampled_from(METAS), min_size=1, max_size=4)),
@@ -128,8 +128,8 @@ def pure_cases(draw):
         "with_meta_digest": draw(st.booleans()),
         "mut": {"op": draw(st.sampled_from(["rename", "rehash", "add", "drop", "swap", "push"])),
                 "i": draw(st.integers(0, 11)), "j": draw(st.integers(0, 11)),
-                "name": draw(pnames()), "oid": draw(st.sampled_from(XOIDS))},
-        "absent": draw(st.lists(pnames(), min_size=1, max_size=2)),
+                "name": draw(PN), "oid": draw(st.sampled_from(XOIDS))},
+        "absent": draw(st.lists(PN, min_size=1, max_size=2)),
     }
 
 
@@ -566,8 +566,8 @@ def run_case(case, ctx):
 
 
 def run(ctx):
-    if ctx.run_given(pure_cases(), run_case, ctx.n(quick=600, thorough=12000)):
-        ctx.run_given(fs_cases(thorough=ctx.tier == "thorough"), run_case, ctx.n(quick=90, thorough=900))
+    if ctx.run_given(pure_cases(), run_case, ctx.n(quick=700, thorough=12000)):
+        ctx.run_given(fs_cases(thorough=ctx.tier == "thorough"), run_case, ctx.n(quick=150, thorough=900))
 
 
 def replay(case, ctx):
